@@ -13,6 +13,7 @@ import (
 	"encoding/json"
 	"fmt"
 	"math/big"
+	"reflect"
 	"regexp"
 	"strings"
 	"testing"
@@ -458,9 +459,10 @@ func check(c isoCase) (msg, discard string) {
 			// an equal input whose arrays have no hidden capacity (or, when the
 			// first input had none, three hidden slots each)
 			in2, _ := c.Spec.build()
-			in2 = univ.Copy(in2)
 			if c.Spec.Spare == 0 {
-				in2 = respare(in2)
+				in2 = relayout(in2, 3, map[[2]uintptr]any{})
+			} else {
+				in2 = relayout(in2, 0, map[[2]uintptr]any{})
 			}
 			vals, errText, budget, m, hd = runKeep(code, in2, univ.Copy(c.Var.X), -1)
 			handles = append(handles, hd)
@@ -598,22 +600,46 @@ func specGen() *rapid.Generator[inputSpec] {
 	})
 }
 
-// respare rebuilds every array of v with three hidden slots beyond its length.
-func respare(v any) any {
-	switch v := v.(type) {
+// relayout rebuilds v with every array given `spare` hidden slots beyond its
+// length (0: none, empty arrays become plain []any{}), keeping the identity
+// structure: a map reachable twice stays one map, two slices with the same
+// start and length stay one slice.
+func relayout(v any, spare int, memo map[[2]uintptr]any) any {
+	switch x := v.(type) {
 	case []any:
-		if v == nil {
-			return v
+		if x == nil {
+			return x
 		}
-		w := make([]any, len(v), len(v)+3)
-		for i, x := range v {
-			w[i] = respare(x)
+		key := [2]uintptr{reflect.ValueOf(x).Pointer(), uintptr(len(x)) + 1}
+		if len(x) > 0 {
+			if w, ok := memo[key]; ok {
+				return w
+			}
+		}
+		w := make([]any, len(x), len(x)+spare)
+		if len(x) > 0 {
+			memo[key] = w
+		}
+		for i, e := range x {
+			w[i] = relayout(e, spare, memo)
 		}
 		return w
 	case map[string]any:
-		for k, x := range v {
-			v[k] = respare(x)
+		if x == nil {
+			return x
 		}
+		key := [2]uintptr{reflect.ValueOf(x).Pointer(), 0}
+		if w, ok := memo[key]; ok {
+			return w
+		}
+		w := make(map[string]any, len(x))
+		memo[key] = w
+		for k, e := range x {
+			w[k] = relayout(e, spare, memo)
+		}
+		return w
+	case *big.Int:
+		return new(big.Int).Set(x)
 	}
 	return v
 }
